@@ -63,6 +63,16 @@ CHECKS = {
                 'classifier fed by online hooks (peer states, snapshots, truth events)',
                 text='held at quiescence on K executions, except the listed known finding (events lost in the '
                      'handshake window)', ref='8/C12', note=TRUST_L3),
+    'C13': dict(engine=ENGINE_L2, technique='runtime monitoring: non-interference oracle (full status snapshot through '
+                'the status XML-RPCs before / after every injected message) and reference model of the handshake, on one '
+                'real booted instance whose peers are scripted and whose proxy steps are scheduled one message at a '
+                'time by a randomised driver',
+                text='held on every injected message and every handshake outcome observed (isolated peers: all message '
+                     'kinds; peers not yet admitted: process state / removal / disability events; stale and duplicated '
+                     'handshake results; mismatching origin), silence and permanence on every isolation observed',
+                ref='8/C13', note='trusted base: the simulated OS layer, clocks and transport of vsim/sim.py, the '
+                'scripted peers of vsim/l2.py (payloads derived from the real instance own answers); Supervisor 4.2.5 '
+                'and the whole supvisors package run unmodified'),
     'C14': dict(engine=ENGINE_L1, technique='runtime monitoring: reference-model monitor on the real '
                 'get_supvisors_instance / strategies / Starter with generated load tables on a real booted context',
                 text='held on every generated choice: the chosen instance is eligible and no eligible instance is '
